@@ -203,8 +203,9 @@ package ship
 //@   ensures [C11] F1-body: c.$reports == old(c.$reports) + 1
 //@   ensures [C04] E6-body: c.dataWriter.$wsClosed
 //@   modifies c.$closeScheduled, c.$schedReports
-//@ func (c *ShipConnection).endHandshakeWithError(err) [C04]
+//@ func (c *ShipConnection).endHandshakeWithError(err) [C04,C11]
 //@   requires err != nil
+//@   atcall CloseConnection [C11] R0-state-first: c.smeState == model.SmeStateError
 //@   requires @READER(c)
 //@   ensures c.smeState == model.SmeStateError && c.shutdownOnce.$done && !c.handshakeTimerRunning
 //@   ensures old(c.$closeScheduled) ==> c.$closeScheduled
@@ -590,7 +591,10 @@ package ship
 //@   ensures [C11] F1-step: @F1STEP(c)
 //@   ensures [C06] B8-keep: @BUFKEEP(c)
 //@   modifies @hs(c)
-//@ func (c *ShipConnection).ReportConnectionError(err) entry [C04,C13]
+// the hub's registry relies on this order (hub: C11-R0): when the end of a connection is reported, the connection
+// already shows its final state - a failed one is in the error state before CloseConnection runs
+//@ func (c *ShipConnection).ReportConnectionError(err) entry [C04,C13,C11]
+//@   atcall CloseConnection [C11] R0-state-first: terminal(c.smeState)
 //@   ensures [C04] E3-step: stepOK(c.role, old(c.smeState), c.smeState)
 //@   ensures [C13] T5-closed: c.shutdownOnce.$done
 //@   ensures [C11] F1-step: @F1STEP(c)
